@@ -373,7 +373,9 @@ func (a *Allocation) WriteTo(p []byte, addr net.Addr) (n int, err error) {
 const rtpMTU = 1600
 
 func (a *Allocation) packetConnHandler(manager *Manager) {
-	buffer := make([]byte, rtpMTU)
+	// One extra byte so that a datagram larger than rtpMTU is detected instead of
+	// being silently truncated by the read and relayed altered.
+	buffer := make([]byte, rtpMTU+1)
 
 	for {
 		n, srcAddr, err := a.relayPacketConn.ReadFrom(buffer)
@@ -381,6 +383,13 @@ func (a *Allocation) packetConnHandler(manager *Manager) {
 			manager.DeleteAllocation(a.fiveTuple)
 
 			return
+		}
+
+		if n > rtpMTU {
+			a.log.Debugf("Relay socket %s dropped a datagram larger than %d bytes from %s",
+				a.relayPacketConn.LocalAddr(), rtpMTU, srcAddr)
+
+			continue
 		}
 
 		a.log.Debugf("Relay socket %s received %d bytes from %s",
